@@ -87,7 +87,9 @@ pub fn check(stats: &mut Stats, w: &Cub, d: f64, class: &str) {
     for f in FUNCTIONS.iter() {
         // failures of offset_scaling on the input class whose `find_extremities` list contains a parameter twice are keyed by that class
         // (zero-length sub-sections in `subdivide_offset`, repaired by the `dedup_by` after the sort: must not fail any more)
-        let tie = if class == "duplicate_extremity" && *f == "offset_scaling" { ".duplicate_extremity" } else { "" };
+        // ... and by the input itself, so that a finding listed for one input does not cover another
+        let tie_owner = if class == "duplicate_extremity" && *f == "offset_scaling" { format!(".duplicate_extremity.input_{:016x}", fnv(&head)) } else { String::new() };
+        let tie = tie_owner.as_str();
         // accuracy failures of offset_scaling are keyed by how far the curve turns (the scaling heuristic places its focus on the two end
         // normals: the further the curve turns, the further its normals are from meeting in one point)
         let turn = if *f == "offset_scaling" {
